@@ -136,7 +136,10 @@ _CLOCKALL_ENS = ['forall(lambda j: implies(0 <= j and j < len(self.clockables), 
                  'forall(lambda o: implies(not %s, o.__st == old(o.__st)))' % MEM(_CL, 'self', 'o'),
                  'forall(lambda w: implies(w.source == None or not %s, w.next == old(w.next)))' % MEM(_CL, 'self', 'w.source.parent'),
                  'forall(lambda j: implies(0 <= j and j < old(len(Wire.prepared)), Wire.prepared[j] == old(Wire.prepared[j])))',
-                 'len(Wire.prepared) >= old(len(Wire.prepared))']
+                 'len(Wire.prepared) >= old(len(Wire.prepared))',
+                 # every wire newly pending was prepared by (hence is driven by) one of the blocks of this domain
+                 _NEWPREP('len(self.clockables)'),
+                 'forall(lambda w: w.source == old(w.source))', 'forall(lambda o: o.parent == old(o.parent))']
 hfunc(SIMF, 'ClockDriverSimulator.clockAll', ['self'], props=('C05', 'C10'), uses=['m:clock'],
       requires=[_CL_IDX],
       modifies=['f:next', 'f:#st', 'el:Wire.prepared', 'len:Wire.prepared'],
@@ -144,8 +147,9 @@ hfunc(SIMF, 'ClockDriverSimulator.clockAll', ['self'], props=('C05', 'C10'), use
                      'forall(lambda o: implies(not %s, o.__st == old(o.__st))) and '
                      'forall(lambda w: implies(w.source == None or not %s, w.next == old(w.next))) and '
                      'len(Wire.prepared) >= old(len(Wire.prepared)) and '
-                     'forall(lambda j: implies(0 <= j and j < old(len(Wire.prepared)), Wire.prepared[j] == old(Wire.prepared[j])))'
-                     % (MEMI(_CL, 'self', 'o', '_i0'), MEMI(_CL, 'self', 'w.source.parent', '_i0'))},
+                     'forall(lambda j: implies(0 <= j and j < old(len(Wire.prepared)), Wire.prepared[j] == old(Wire.prepared[j]))) and '
+                     '%s'
+                     % (MEMI(_CL, 'self', 'o', '_i0'), MEMI(_CL, 'self', 'w.source.parent', '_i0'), _NEWPREP('_i0'))},
       ensures=_CLOCKALL_ENS)
 
 callee('m:clockAll', args=[], modifies=['f:next', 'f:#st', 'el:Wire.prepared', 'len:Wire.prepared'], requires=[_CL_IDX], ensures=_CLOCKALL_ENS)
@@ -166,8 +170,16 @@ KEYS = 'self.clockDrivers.__keys'
 _EN = lambda d: '(%s.enable == None or old(%s.enable.value) != 0)' % (d, d)
 # o is a sequential leaf registered under the driver of its domain
 _INL = lambda o: '(dom(%s) in self.clockDrivers and %s)' % (o, MEM('self.clockDrivers[dom(%s)].clockables' % o, 'self.clockDrivers[dom(%s)]' % o, o))
-_DONE = lambda o: '(0 <= kidx(dom(%s)) and kidx(dom(%s)) < _i0 and %s[kidx(dom(%s))] == dom(%s))' % (o, o, KEYS, o, o)
-_STEPPED = lambda o: '%s and %s and %s' % (_DONE(o), _INL(o), _EN('dom(%s)' % o))
+_DONE = lambda o, hi='_i0': '(0 <= kidx(dom(%s)) and kidx(dom(%s)) < %s and %s[kidx(dom(%s))] == dom(%s))' % (o, o, hi, KEYS, o, o)
+_STEPPED = lambda o, hi='_i0': '%s and %s and %s' % (_DONE(o, hi), _INL(o), _EN('dom(%s)' % o))
+# every pending wire was prepared by a block that has been stepped (C10: a gated-off block prepares nothing)
+# (the block is named by a bound variable p: old(...) inside STEPPED must apply to the enable value only, not to the pending list)
+_PREP_OK = lambda hi: ('forall(lambda j, p: implies(0 <= j and j < len(Wire.prepared) and (Wire.prepared[j].source == None or p == Wire.prepared[j].source.parent), '
+                       'Wire.prepared[j].source != None and (%s)))' % _STEPPED('p', hi))
+_INP_ = lambda o: 'exists(lambda k: 0 <= k and k < len(self.propagatables) and self.propagatables[k] == %s)' % o
+# the wires driven by a sequential block that was not stepped keep their value across the edge (output-wire clause of C10)
+_OUT_KEPT = ('forall(lambda w: implies(w.source != None and not (%s) and not %s, w.value == old(w.value)))'
+             % (_STEPPED('w.source.parent', 'len(%s)' % KEYS), _INP_('w.source.parent')))
 hfunc(SIMF, 'Simulator._clk_cycle', ['self'], props=('C05', 'C10'),
       uses=['m:clockAll', 'm:Wire.settleAll', 'm:get', 'm:propagate', 'm:_notifyListeners'],
       requires=['forall(lambda j: implies(0 <= j and j < len(%s), %s[j] in self.clockDrivers and kidx(%s[j]) == j))' % (KEYS, KEYS, KEYS),
@@ -178,14 +190,17 @@ hfunc(SIMF, 'Simulator._clk_cycle', ['self'], props=('C05', 'C10'),
                 'len(Wire.prepared) == 0'],
       modifies=['f:next', 'f:#st', 'el:Wire.prepared', 'len:Wire.prepared', 'f:value', 'f:#epoch', 'f:#ok', 'f:total_clks'],
       invariants={0: 'forall(lambda o: implies(%s, o.__st == Fstate(o, old(o.__st), old(epoch())))) and '
-                     'forall(lambda o: implies(not (%s), o.__st == old(o.__st)))'
-                     % (_STEPPED('o'), _STEPPED('o')),
-                  1: 'True'},
+                     'forall(lambda o: implies(not (%s), o.__st == old(o.__st))) and '
+                     '%s and forall(lambda w: w.value == old(w.value))'
+                     % (_STEPPED('o'), _STEPPED('o'), _PREP_OK('_i0')),
+                  1: _OUT_KEPT + ' and len(Wire.prepared) == 0'},
       ensures=['self.total_clks == old(self.total_clks) + 1', 'len(Wire.prepared) == 0',
                # C05: every sequential block of an enabled domain is stepped exactly once on the PRE-edge values (old epoch), whatever the visiting order
                'forall(lambda o: implies(%s and %s and dom(o) in self.clockDrivers, o.__st == Fstate(o, old(o.__st), old(epoch()))))' % (_INL('o'), _EN('dom(o)')),
                # C10: blocks of a domain whose enable read 0 before the edge keep their state; so does everything outside all domains
-               'forall(lambda o: implies(not (%s and %s), o.__st == old(o.__st)))' % (_INL('o'), _EN('dom(o)'))])
+               'forall(lambda o: implies(not (%s and %s), o.__st == old(o.__st)))' % (_INL('o'), _EN('dom(o)')),
+               # C10, outputs: a wire driven by a sequential block that was not stepped (gated-off domain, or outside all domains) carries the same value after the edge
+               _OUT_KEPT])
 
 
 # Simulator.clk(n): n single cycles after one settle; stops early only through stop()
@@ -230,8 +245,12 @@ hfunc(SIMF, 'Simulator.propagateAll', ['self'], props=('C04',), uses=['m:propaga
 _FFDP = ['(result == -1 and forall(lambda j: implies(0 <= j and j < len(self.propagatables), not dep(obj, self.propagatables[j])))) or '
          '(0 <= result and result < len(self.propagatables) and dep(obj, self.propagatables[result]) and '
          'forall(lambda j: implies(0 <= j and j < result, not dep(obj, self.propagatables[j]))))']
-callee('m:findFirstDependentPosition', args=['obj'], returns=True, ensures=_FFDP)
-callee('m:allLeaves', args=[], returns='list')
+# every propagatable block sits somewhere in the evaluation list (existential form of the `pidx` clause in the requires of
+# findFirstDependentPosition below: the two are equivalent by Skolemisation)
+_COVER = lambda lst: 'forall(lambda v: implies(propagatable(v), exists(lambda j: 0 <= j and j < len(%s) and %s[j] == v)))' % (lst, lst)
+callee('m:findFirstDependentPosition', args=['obj'], returns=True, requires=[_COVER('self.propagatables')], ensures=_FFDP)
+# assumed of allLeaves (recursive descent over children, not under contract): every propagatable object is one of the leaves returned
+callee('m:allLeaves', args=[], returns='list', ensures=[_COVER('result')])
 callee('m:isClockable', args=[], returns=True)
 callee('m:isPropagatable', args=[], returns=True, ensures=['(result != 0) == propagatable(self)'])
 callee('m:getOrCreateClockDriverSimulator', args=['drv'], returns=True, modifies=['has:clockDrivers', 'val:clockDrivers'])
@@ -243,13 +262,16 @@ hfunc(SIMF, 'Simulator.topologicalSort', ['self'], props=('C04',),
       uses=['m:findFirstDependentPosition', 'm:allLeaves', 'm:isClockable', 'm:isPropagatable', 'm:getOrCreateClockDriverSimulator', 'm:addClockable', 'f:getObjectClockDriver'],
       modifies=['len:propagatables', 'el:propagatables', 'has:clockDrivers', 'val:clockDrivers', 'el:clockables', 'len:clockables'],
       raises_only_when='True',
-      invariants={0: 'True',
-                  # while: a pass that made no change leaves the list sorted along dep
-                  1: 'implies(not anyChange, %s)' % _STRICT('len(self.propagatables)'),
+      invariants={  # first loop: every propagatable leaf seen so far has been appended
+                  0: 'len(self.propagatables) >= 0 and forall(lambda k: implies(0 <= k and k < _i0 and propagatable(leaves[k]), '
+                     'exists(lambda j: 0 <= j and j < len(self.propagatables) and self.propagatables[j] == leaves[k])))',
+                  # while: a pass that made no change leaves the list sorted along dep; exchanges keep every block in the list
+                  1: 'implies(not anyChange, %s) and %s' % (_STRICT('len(self.propagatables)'), _COVER('self.propagatables')),
                   # for: positions below i already checked in this pass (no exchange happened so far)
-                  2: 'implies(not anyChange, %s)' % _STRICT('_i2')},
-      # normal return => every block sits after everything it depends on (strictly; a block reading its own output is not excluded: see known finding)
-      ensures=[_STRICT('len(self.propagatables)')])
+                  2: 'implies(not anyChange, %s) and %s' % (_STRICT('_i2'), _COVER('self.propagatables'))},
+      # normal return => every block sits after everything it depends on (strictly; a block reading its own output is not excluded: see known finding),
+      # and every propagatable leaf is in the list
+      ensures=[_STRICT('len(self.propagatables)'), _COVER('self.propagatables')])
 
 
 # ------------------------------------------------------------------------------------------------- C15
@@ -329,3 +351,71 @@ hfunc(DBG, 'checkIntegrity', ['obj'], props=('C11',),
                      'forall(lambda j: implies(0 <= j and j < _i4, integ(obj.children[%s[j]])))' % _CK},
       # raises exactly when some port in the hierarchy is attached to a wire that no block drives
       raises_when='not integ(obj)')
+
+
+# ------------------------------------------------------------------------------------------------- C04: getSimulator (re)schedules
+# up_to_date(sim): the evaluation list of sim is sorted along dep and holds every propagatable leaf of the current hierarchy.
+# topologicalSort establishes it (sortedness proved above; coverage is the assumed part: its first loop appends every
+# propagatable leaf that allLeaves returns); getSimulator must return a simulator for which it holds on *every* path,
+# also when the simulator already existed and blocks were added since.
+_SORTED_R = 'forall(lambda a, b: implies(0 <= a and a < b and b < len(%s.propagatables), not dep(%s.propagatables[b], %s.propagatables[a])))'
+_COVER_R = 'forall(lambda v: implies(propagatable(v), exists(lambda j: 0 <= j and j < len(%s.propagatables) and %s.propagatables[j] == v)))'
+_UPTODATE = lambda r: [(_SORTED_R % (r, r, r)), (_COVER_R % (r, r))]
+_TS_MOD = ['len:propagatables', 'el:propagatables', 'has:clockDrivers', 'val:clockDrivers', 'el:clockables', 'len:clockables']
+callee('m:topologicalSort', args=[], modifies=_TS_MOD, ensures=_UPTODATE('self'))
+callee('new:Simulator/1', args=['sys'], requires=['sys.simulator == None'],
+       modifies=_TS_MOD + ['f:total_clks', 'f:sys', 'len:listeners', 'f:value'],
+       ensures=_UPTODATE('self') + ['self.sys == sys'])
+hfunc('py4hw/base.py', 'HWSystem.getSimulator', ['self'], props=('C04',), refs=['self'], uses=['new:Simulator/1', 'm:topologicalSort'],
+      modifies=_TS_MOD + ['f:total_clks', 'f:sys', 'len:listeners', 'f:value', 'f:simulator', 'f:#alloc'],
+      ensures=['result == self.simulator and result != None'] + _UPTODATE('result'))
+
+
+# ------------------------------------------------------------------------------------------------- C15: Waveform.__init__
+# The watch list may name a wire directly, through a port, or more than once; the constructor keeps one entry per distinct
+# wire, each with its own (new, empty) sample list.  These are the requires of Waveform.clock above (there written with the
+# ghost index cidx: a duplicate-free list has an index function, by Skolemisation).
+_W = 'items(wires)'
+_WOF = lambda x: '(%s if isinstance(%s, Wire) else %s.wire)' % (x, x, x)        # the wire an entry of the watch list stands for
+_UU = 'self.uniqueWires'
+_WATCHABLE = ('forall(lambda k: implies(0 <= k and k < len(%s), (isinstance(%s[k], Wire) or isinstance(%s[k], InPort) or isinstance(%s[k], OutPort)) and '
+              'implies(not isinstance(%s[k], Wire), %s[k].wire != None and isinstance(%s[k].wire, Wire))))' % (_W, _W, _W, _W, _W, _W, _W))
+_WF_INV = ('len(%s) >= 0 and '
+           # entries are wires, each registered in data with a sample list that exists, is empty and is its own
+           'forall(lambda j: implies(0 <= j and j < len(%s), isinstance(%s[j], Wire) and %s[j] in self.data and self.data[%s[j]].__alloc and len(items(self.data[%s[j]])) == 0)) and '
+           'forall(lambda i, j: implies(0 <= i and i < j and j < len(%s), %s[i] != %s[j] and self.data[%s[i]] != self.data[%s[j]]))'
+           % (_UU, _UU, _UU, _UU, _UU, _UU, _UU, _UU, _UU, _UU, _UU))
+_WF_COVER = lambda hi: ('forall(lambda k: implies(0 <= k and k < %s, exists(lambda j: 0 <= j and j < len(%s) and %s[j] == %s)))' % (hi, _UU, _UU, _WOF('%s[k]' % _W)))
+callee('m:super.__init__', args=['parent', 'name'], modifies=['f:parent', 'f:name', 'has:children', 'val:children', 'len:#keys:children', 'el:#keys:children', 'len:inPorts', 'len:outPorts', 'len:inOutPorts',
+                                                                'len:sources', 'len:sinks', 'f:clockDriver', 'has:_wires', 'val:_wires'])
+callee('m:addIn', args=['name', 'wire'], returns=True, modifies=['len:inPorts', 'el:inPorts', 'len:sinks', 'el:sinks', 'f:wire', 'f:parent', 'f:name'],
+       # the port it creates is a new object: the wire / parent / name fields of existing objects are untouched
+       ensures=['forall(lambda o: implies(old(o.__alloc), o.wire == old(o.wire)))'])
+callee('m:getFormat', args=[], returns=True)
+callee('m:getWidth', args=[], returns=True)
+hfunc(WF, 'Waveform.__init__', ['self', 'parent', 'name', 'wires'], props=('C15',), refs=['self', 'parent', 'wires'], plain_attrs=['wires'], list_attrs=['format'],
+      uses=['m:super.__init__', 'm:addIn', 'm:getFormat', 'm:getWidth', 'm:getFullPath'],
+      requires=['isinstance(wires, list)', 'len(%s) > 0' % _W, _WATCHABLE, 'self.__alloc and wires.__alloc',
+                'forall(lambda k: implies(0 <= k and k < len(%s), %s[k].__alloc))' % (_W, _W)],
+      modifies=['f:parent', 'f:name', 'has:children', 'val:children', 'len:#keys:children', 'el:#keys:children', 'len:inPorts', 'el:inPorts', 'len:outPorts', 'len:inOutPorts',
+                'len:sources', 'len:sinks', 'el:sinks', 'f:clockDriver', 'has:_wires', 'val:_wires', 'f:wire', 'f:wires', 'len:format', 'el:format', 'has:data', 'val:data',
+                'len:uniqueWires', 'el:uniqueWires', 'f:#alloc', 'len:#items'],
+      invariants={0: _WF_INV + ' and ' + _WF_COVER('_i0') + ' and self.wires == wires and '
+                     'forall(lambda k: implies(0 <= k and k < len(%s), %s[k] == old(%s[k]) and %s[k].wire == old(%s[k].wire))) and len(%s) == old(len(%s)) and '
+                     'forall(lambda o: implies(old(o.__alloc), o.__alloc))' % (_W, _W, _W, _W, _W, _W, _W)},
+      ensures=[_WF_INV, _WF_COVER('len(%s)' % _W)])
+
+_DK = 'self.data.__keys'
+hfunc(WF, 'Waveform.clear', ['self'], props=('C15',), refs=['self'],
+      requires=['forall(lambda j: implies(0 <= j and j < len(%s), %s[j] in self.data))' % (_DK, _DK),
+                'forall(lambda i, j: implies(0 <= i and i < j and j < len(%s), %s[i] != %s[j]))' % (_DK, _DK, _DK)],
+      modifies=['val:data', 'has:data', 'f:#alloc', 'len:#items'],
+      invariants={0: 'forall(lambda j: implies(0 <= j and j < _i0, len(items(self.data[%s[j]])) == 0)) and forall(lambda j: implies(0 <= j and j < _i0, self.data[%s[j]].__alloc)) and '
+                     'forall(lambda i, j: implies(0 <= i and i < j and j < _i0, self.data[%s[i]] != self.data[%s[j]])) and '
+                     'forall(lambda j: implies(_i0 <= j and j < len(%s), self.data[%s[j]] == old(self.data[%s[j]]))) and '
+                     'forall(lambda k: (k in self.data) == old(k in self.data)) and forall(lambda o: implies(old(o.__alloc), o.__alloc))'
+                     % (_DK, _DK, _DK, _DK, _DK, _DK, _DK)},
+      # every record is a new empty list of its own: the next run starts from cycle 0, and the records stay distinct
+      ensures=['forall(lambda j: implies(0 <= j and j < len(%s), len(items(self.data[%s[j]])) == 0))' % (_DK, _DK),
+               'forall(lambda i, j: implies(0 <= i and i < j and j < len(%s), self.data[%s[i]] != self.data[%s[j]]))' % (_DK, _DK, _DK),
+               'forall(lambda k: (k in self.data) == old(k in self.data))'])
